@@ -64,7 +64,7 @@ def default_inputs(run, rng, focus):
         kw = {}
         if focus == "C07" and rng.random() < .6:
             # attribute-heavy documents over few values: unique-attribute rules bite
-            kw = dict(attr_counts=(1, 2, 2, 3), values=('1', '2'), tags=['a', 'b'])
+            kw = dict(attr_counts=(1, 2, 2, 3), values=('1', '2') if rng.random() < .6 else ('1', '', ''), tags=['a', 'b'])
             ns = False
         if not kw and rng.random() < .25:
             # attribute values that differ only in inner white space, and the same local attribute
@@ -193,6 +193,14 @@ def default_inputs(run, rng, focus):
         for a, b in XMLID_STREAM:
             for o in ({}, {'fast_match': True}, {'best_match': True}):
                 inputs.append((a, b, o))
+    # a unique attribute that is present with the EMPTY value on one side and absent (or non-empty) on the other
+    if focus == "C07":
+        for a, b in (('<r><a i="">same text</a><k/></r>', '<r><a>same text</a><k/></r>'),
+                     ('<r><a>same text</a></r>', '<r><b/><a i="">same text</a></r>'),
+                     ('<r><a i="" j="1">t</a><a i="x" j="1">t</a></r>', '<r><a i="x" j="1">t</a><a j="1">t</a></r>'),
+                     ('<r><a xml:id="">t</a></r>', '<r><a>t</a></r>')):
+            for o in ({'uniqueattrs': ['i']}, {'uniqueattrs': ['i'], 'fast_match': True}, {'uniqueattrs': [('a', 'i')], 'best_match': True}, {}):
+                inputs.append((a, b, o))
     # labelled stream of inputs that fall under recorded (open) known findings
     if focus in ("C01", "C04", "C05"):
         for a, b in KNOWN_STREAM:
@@ -293,6 +301,11 @@ REBOUND_STREAM = [
     ('<r><k/></r>', '<r xmlns:p="u" xmlns:q="u"><k/><q:n a="1"><q:m>t</q:m></q:n></r>'),
     ('<r><k/></r>', '<r xmlns:q="u" xmlns:p="u"><k/><p:n a="1"><p:m>t</p:m></p:n><q:z>w</q:z></r>'),
     ('<r xmlns:o="urn:o"><o:k/></r>', '<r xmlns:o="urn:o" xmlns:a="u" xmlns:b="u"><o:k/><b:n><a:m>t</a:m></b:n></r>'),
+    # unusual but legal prefixes on the right root only (xml..., ns, n0, with dots / dashes / underscores)
+    ('<doc><k/></doc>', '<doc xmlns:xmldsig="urn:sig"><k/><xmldsig:Signature i="1"><xmldsig:v>t</xmldsig:v></xmldsig:Signature></doc>'),
+    ('<doc><k/></doc>', '<doc xmlns:XMLx="urn:x" xmlns:ns="urn:n"><k/><XMLx:e><ns:f>t</ns:f></XMLx:e></doc>'),
+    ('<doc><k/></doc>', '<doc xmlns:a.b="urn:ab" xmlns:_p="urn:p" xmlns:x-y="urn:xy"><k/><a.b:e i="1"><_p:f>t</_p:f><x-y:g/></a.b:e></doc>'),
+    ('<doc xmlns:n0="urn:n"><n0:k/></doc>', '<doc xmlns:n0="urn:n"><n0:k>t</n0:k><n0:m><n0:z/></n0:m></doc>'),
 ]
 XMLID_STREAM = [
     ('<r><s xml:id="s1"><t>One</t><p>alpha</p></s><s xml:id="s2"><t>Two</t><p>beta</p></s></r>',
@@ -318,6 +331,33 @@ KNOWN_STREAM = [
     # only the RIGHT root does: must work
     ('<r xmlns:p="u"><p:x/></r>', '<r xmlns:p="u" xmlns:q="u"><p:x a="1"/><q:x><q:z/></q:x></r>'),
 ]
+
+
+PI_STREAM = [
+    # processing instructions below the root: Differ.node_text joins node.tag (a function for a PI) with strings
+    ('<doc><p>a<?pi x?>b</p></doc>', '<doc><p>a<?pi x?>c</p></doc>'),
+    ('<doc><?page break?><a/></doc>', '<doc><?page break?><a/></doc>'),
+    ('<doc><a/></doc>', '<doc><a/><?php echo 1; ?></doc>'),
+]
+
+
+def pi_stream(focus):
+    """Documents with a processing instruction below the root are outside the differ model (treeenc.supported); the open
+    finding processing-instruction-below-root is exhibited here on every run, oracle only."""
+    from xmldiff import main
+    out = []
+    for a, b in PI_STREAM:
+        if focus == "C03" and a != b:
+            continue
+        try:
+            s_ = main.diff_trees(etree.fromstring(a), etree.fromstring(b))
+            if focus == "C03" and s_:
+                out.append({"what": "non-empty script for equal documents: %r" % (s_,), "replay": {"left": a, "right": b, "opts": {}, "finding_key": None}})
+        except Exception as ex:  # noqa
+            what = ("diffing a document against an equal document raised %r instead of returning the empty script" if focus == "C03"
+                    else "diff raised %r") % ex
+            out.append({"what": what, "replay": {"left": a, "right": b, "opts": {}, "finding_key": "processing-instruction-below-root"}})
+    return out
 
 
 def evaluate(built, focus):
@@ -505,6 +545,8 @@ def main(run, focus, extra_corr=None):
     else:
         built = [c for c in (differ_corr.build_case(*i) for i in inputs) if c]
     viols, stats = evaluate(built, focus)
+    if focus in ("C01", "C03"):
+        viols += pi_stream(focus)
     run.log("correspondence: %d cases, %d disagreements; oracle: %d scripts / %d actions, %d violations of %s" %
             (corr["cases"], len(corr["bad"]), stats["scripts"], stats["actions"], len(viols), focus))
     corrs = [corr] + (extra_corr(run, rng, pinfo) if extra_corr else [])
@@ -538,6 +580,15 @@ def replay(run, path, focus):
         print("replay names a broken tie, not an input:", d.get("broken")); return 1
     opts = {k: (v if k != "uniqueattrs" else [tuple(x) if isinstance(x, list) else x for x in v]) for k, v in d["opts"].items()}
     c = differ_corr.build_case(d["left"], d["right"], opts)
+    if c is None:        # outside the differ model (processing instructions): the public entry point only
+        from xmldiff import main
+        try:
+            print("script:", main.diff_trees(etree.fromstring(d["left"]), etree.fromstring(d["right"]), diff_options=opts))
+            print("property holds on this input (as far as the entry point shows)")
+            return 0
+        except Exception as ex:  # noqa
+            print("violation: diff raised %r" % ex)
+            return 1
     v, _ = evaluate([c], focus)
     for x in v:
         print("violation:", x["what"])
